@@ -26,6 +26,7 @@ SRC = "/repo/fairlearn/adversarial/_adversarial_mitigation.py"
 UNTRACKED = {"start_time", "last_update_time", "predictor_losses", "adversary_losses", "progress", "ETA", "LP", "LA"}
 
 FRESH = [0]
+QF_TERMS = {}
 
 
 def fresh(name, sort=None):
@@ -71,7 +72,12 @@ class Exec:
         self.loop_path = []
 
     def oblige(self, name, st, goals):
+        ts = [st.ghost["T"].n, st.ghost["T"].n - 1, st.ghost["C"].n, st.ghost["C"].n - 1] if "T" in st.ghost else []
+        for v in ("epoch", "batch"):
+            if v in st.env:
+                ts += [st.env[v], st.env[v] - 1, st.env[v] + 1]
         for k, g in enumerate(goals):
+            QF_TERMS[f"{name}#{k}"] = ts
             self.obligations.append((f"{name}#{k}", list(st.pc), g))
 
     # ---------- expressions (ints / bools only)
@@ -355,12 +361,34 @@ def main():
         if r != unsat:
             # second pass for a candidate counterexample: model-based quantifier instantiation, short budget
             s2 = Solver()
-            s2.set("timeout", 10000)
+            s2.set("timeout", 2000)
             s2.add(*hyps)
             s2.add(Not(goal))
             t2 = time.time()
             r2 = s2.check()
             extra = f"  second pass (MBQI): {r2} in {time.time()-t2:.2f}s"
+            # third pass: quantifier-free candidate (skolemise goal, instantiate hypotheses on ground index terms)
+            from z3 import is_quantifier, substitute_vars, is_int
+            import itertools
+            g2, sk = goal, []
+            if is_quantifier(g2) and g2.is_forall():
+                sk = [fresh("sk") for _ in range(g2.num_vars())]
+                g2 = substitute_vars(g2.body(), *reversed(sk))
+            terms = sk + [x + 1 for x in sk] + [x - 1 for x in sk] + [IntVal(0), IntVal(1)] + QF_TERMS.get(name, [])
+            flat = []
+            for h in hyps:
+                if is_quantifier(h) and h.is_forall():
+                    for tup in itertools.product(terms, repeat=h.num_vars()):
+                        flat.append(substitute_vars(h.body(), *reversed(tup)))
+                else:
+                    flat.append(h)
+            s3 = Solver(); s3.set("timeout", 15000); s3.add(*flat); s3.add(Not(g2))
+            t3 = time.time(); r3 = s3.check()
+            extra += f" | QF candidate: {r3} in {time.time()-t3:.2f}s"
+            if r3 == sat:
+                m = s3.model()
+                want = ("n", "self_batch_size", "self_epochs", "self_max_iter")
+                extra += "  candidate input: " + ", ".join(f"{d.name()}={m[d]}" for d in m.decls() if d.name() in want or d.name().startswith(("batch!", "epoch!")))
             if r2 == sat:
                 m = s2.model()
                 extra += "  e.g. " + ", ".join(f"{d.name()}={m[d]}" for d in m.decls() if d.name() in ("n", "self_batch_size", "self_epochs", "self_max_iter"))
